@@ -305,12 +305,12 @@ CONFIG = {
         "a float64 below -2^63 does not convert to a positive int64 (true on amd64/arm64); hypothesis of the acceptor-completeness theorem only",
         "Retry-After: only what strconv.ParseInt reads as a positive integer is honoured (delay-seconds, also with a leading '+'); an HTTP-date (the other half of RFC 9110's grammar), padded or fractional values are NOT honoured by the code -- the exponential backoff applies; modelled as written (parse_int64), compared on all these forms; C17_retry_after covers the integer form with n*1e9 < 2^63 (larger values wrap and are clamped like any other backoff)",
         "MinWait > MaxWait (ill-formed policy): the bounds clause is vacuous; the code returns MaxWait (C17_pause_min_gt_max); generated and compared",
-        "the acceptor for jittered pauses is proved complete (never rejects a pause the model can produce), not sound; about 1% of the exponential-backoff points near a float64 decision boundary are left unjudged; the pause bounds themselves are judged exactly by the oracle on every point",
+        "the acceptor for jittered pauses is proved complete (never rejects a pause the model can produce) and sound up to its allowances (C17_acceptor_sound: an accepted pause is the clamp of the Retry-After delay exactly, or of a value within the float64 rounding allowances tol_a + tol_n of the model's exact range); about 1% of the exponential-backoff points near a float64 decision boundary are left unjudged; the pause bounds themselves are judged exactly by the oracle on every point",
         "an equivalent rewrite of the two syntactic source facts the model follows (jitter guard: n > 0 / n >= 1 / early return are recognised; ctx.Err() re-check in the `case <-timer.C` clause) in another shape flips the generated flag and is reported as a broken proof layer without failing input",
         "timing: the scripted base transport reads the body at once and then waits its latency on the fake clock of testing/synctest; the context never ends at the instant a timer of positive length fires (cancel instants odd, all other instants even); zero-length pauses and contexts that are over before the call are generated: there the timer and ctx.Done are ready together, and the current source (timer case re-checks ctx.Err(), fix 318fd40) ends the call either way; a request whose context has ended is answered by the scripted transport with the context's error at once, as net/http's transport does",
         "manifestStore.push buffering is modelled as 'a one-shot body becomes replayable iff the client is *auth.Client' and exercised with a non-indexed manifest media type; the digest/size verification of cas.Memory is C05's",
     ],
-    "level_text": "Coq theorems for every script of server behaviours, body kind/size, policy parameter set, attempt number and cancellation instant: each send makes between 1 and MaxRetry+1 attempts; every pause GenericPolicy.Retry computes and every pause the transport makes lies in [MinWait, MaxWait] (Retry-After on 429 honoured within them); a non-retryable answer (for DefaultPredicate: anything but 408/429/0/5xx and net.Error values reporting Timeout() -- Temporary() alone is not retried; both branches regenerated from policy.go) is returned after exactly one attempt; on every attempt of the retry transport and of the auth client's re-send the registry receives exactly the prefix it reads of the complete original body (the whole body when it reads to the end); a body without a working GetBody is sent once and the call ends with that answer (transport) or the rewind error (auth client); with a context ending at tc every attempt but the first of a send starts strictly before tc, the call is over at tc, and a pause the context ends in (or that starts after it ended: zero pauses, contexts over from the start) ends the call -- transport, auth client (all sends) and blob push -- with the context's error at that instant, without any hypothesis on the policy (defect: the original select could go on attempting after the context ended when the pause was zero; fixed 318fd40); on the whole trace every answer but the last was retryable and the call returns the last answer; Transport.RoundTrip, the whole cold auth stack (first send, token request, re-send) and the whole blob push (POST, PUT, their token requests) refine stateless specifications (spec_send / spec_auth / spec_push: result, end instant and every attempt's instant and received bytes) for replayable bodies without cancellation; the token request of a Bearer challenge carries its whole form on every attempt, is bounded and cancellable like any send, and its failure ends Do; ExponentialBackoff is total on the current source (refuted with a witness for the original source, defect F7, fixed). The model is tied to the code by regenerated constants (DefaultPolicy numbers, DefaultPredicate status branch, jitter guard), by a correspondence run of real retry.Transport / auth.Client / Repository manifest push over a scripted transport under synctest's fake clock (exact attempt instants, per-attempt received bytes), and by an independent oracle.",
+    "level_text": "Coq theorems for every script of server behaviours, body kind/size, policy parameter set, attempt number and cancellation instant: each send makes between 1 and MaxRetry+1 attempts; every pause GenericPolicy.Retry computes and every pause the transport makes lies in [MinWait, MaxWait] (Retry-After on 429 honoured within them); a non-retryable answer (for DefaultPredicate: anything but 408/429/0/5xx and net.Error values reporting Timeout() -- Temporary() alone is not retried; both branches regenerated from policy.go) is returned after exactly one attempt; on every attempt of the retry transport and of the auth client's re-send the registry receives exactly the prefix it reads of the complete original body (the whole body when it reads to the end); a body without a working GetBody is sent once and the call ends with that answer (transport) or the rewind error (auth client); with a context ending at tc every attempt but the first of a send starts strictly before tc, the call is over at tc, and a pause the context ends in (or that starts after it ended: zero pauses, contexts over from the start) ends the call -- transport, auth client (all sends) and blob push -- with the context's error at that instant, without any hypothesis on the policy (defect: the original select could go on attempting after the context ended when the pause was zero; fixed 318fd40); on the whole trace every answer but the last was retryable and the call returns the last answer; Transport.RoundTrip, the whole cold auth stack (first send, token request, re-send) and the whole blob push (POST, PUT, their token requests) -- for every context: never ending, ending at any instant, over before the call (spec_send_c / spec_auth_at_c / spec_authw_at_c / spec_push_c) -- refine stateless specifications (spec_send / spec_auth / spec_push: result, end instant and every attempt's instant and received bytes) for replayable bodies without cancellation; the token request of a Bearer challenge carries its whole form on every attempt, is bounded and cancellable like any send, and its failure ends Do; ExponentialBackoff is total on the current source (refuted with a witness for the original source, defect F7, fixed). The model is tied to the code by regenerated constants (DefaultPolicy numbers, DefaultPredicate status branch, jitter guard), by a correspondence run of real retry.Transport / auth.Client / Repository manifest push over a scripted transport under synctest's fake clock (exact attempt instants, per-attempt received bytes), and by an independent oracle.",
     "level_note": "oracle-only (no theorem, not in the model): headers of re-sent requests (method, URL, Content-Type, Content-Length: clause request-changed), token requests in the warm-cache / blob-push / manifest-push flows (served at once there; modelled for the cold auth client, op Q), net/http's real transport (httptest, 1-8 MiB bodies, answers before the body is read), retry.DefaultPolicy end to end incl. cancellation, bodies over 64 KiB; net.Error classification of Go error values is declared per shape by the harness (self-checked) and abstracted to three booleans in the model; blob push modelled for an empty token cache and for a cache holding the push's own token (X); mount fallback (Y/y) as a blob push with a one-shot PUT; float64 arithmetic and the random jitter of ExponentialBackoff are modelled with exact rationals and an acceptor with rounding allowance; auth client modelled only as far as re-sending goes (cold cache, warm Bearer cache); net/http client plumbing, strconv.ParseInt and synctest are trusted/hand-modelled (see assumptions)",
     "technique": "machine-checked proof in Coq (loop invariants over the retry loop as a transition function; universal statements over policies, scripts, bodies, cancellation instants) + translator-regenerated constants/decision branch + model/implementation correspondence under testing/synctest fake time + independent oracle",
     "explanation": "theorems about Model/Retry.v (GenericPolicy.Retry, DefaultPredicate, ExponentialBackoff, Transport.RoundTrip loop as a transition function, auth.Client.Do re-sends for a cold and a warm Bearer token cache, manifest push buffering); harness under testing/synctest fake time: exhaustive behaviour sequences (length <= 3 quick / 5 thorough) x body kinds x three stacks, every odd cancellation instant of small scripts (cancel and deadline), random scripts with partial body reads, latencies, Retry-After values, GetBody failures, unknown Content-Length, several methods, preset Authorization, bodies up to 1 MiB (oracle only), retry.DefaultPolicy end to end (oracle only), manifest pushes with one-shot readers through auth and plain clients, blob pushes (POST then PUT; exhaustive sequences up to length 4 quick / 6 thorough and random) through auth and plain clients, 19 transport-error shapes with every (net.Error, Timeout, Temporary) combination wrapped and unwrapped, custom Retryable predicates (retry/stop/fail tables), a 300-case sample re-evaluated inside Coq with vm_compute in the thorough tier, and a sweep of policy decision points (attempt 0..80, backoff, factor, jitter incl. 0/negative/tiny, bounds incl. extreme, Retry-After incl. huge/garbage) judged by an acceptor proved complete for the model; body kind http.NoBody without GetBody, warm token caches (other scope key: W; the request's own key: V; within a blob push: X), zero-length pauses and contexts that ended before the call, a scripted token service (op Q, model-compared: GET and OAuth2 POST, exhaustive token-service sequences up to length 2/3; op K oracle only), mount fallback uploads (Y/y), strconv.ParseInt strings (I), real net/http transport scenarios; coverage floors per stream (harness exit 4 = layer R failure) and on the share of unjudged acceptor points; per-case watchdogs (synctest deadlock, wall clock, runaway request count: signature wedged); oracle clauses: request-changed, real-body-truncated, body-truncated, too-many-attempts, pause-bounds, nonretryable-retried, oneshot-resent, cancel-ignored/late/result, wrong-result, backoff-panic, maxretry-ignored, retry-after",
